@@ -669,6 +669,51 @@ func runCase(cs poolsim.Case, coqWanted bool) (coqOut string, failOut *failure, 
 				}
 				st["submit:"+s.Flavor]++
 			}
+		case "submit-at":
+			// AddV2PoolTransactions with a fresh transaction built at another block as basis
+			bn := nodeByIdx(stp.Op.Nodes[0])
+			tip := r.Tip
+			if bn == nil || !r.Known[bn] || !bn.ChainValid() || tip.Height+1 < w.Env.Net.HardforkV2.AllowHeight {
+				continue
+			}
+			_, p2 := r.Pool()
+			used := map[types.SiacoinOutputID]bool{}
+			for _, x := range p2 {
+				for _, in := range x.SiacoinInputs {
+					used[in.Parent.ID] = true
+				}
+			}
+			tipL := w.Info(tip).L
+			var cand []types.SiacoinElement
+			for _, el := range w.Spendable(w.Info(bn), types.Siacoins(40)) {
+				if _, ok := tipL.SC[el.ID]; ok && !used[el.ID] {
+					cand = append(cand, el)
+				}
+			}
+			if len(cand) == 0 {
+				continue
+			}
+			one := types.Siacoins(1)
+			txn := w.Env.V2Spend(bn.FullState, cand[g.Intn(len(cand))], one, one, w.Env.Payees[0], 0, 6)
+			m := poolsim.Meta{SignedAt: bn.Height, POK: r.StoredElements(bn).FullState.Elements.ValidateTransactionElements(txn) == nil}
+			rv, ap := poolsim.TreePath(bn, tip)
+			unavailable := false
+			for _, x := range append(rv, ap...) {
+				if !r.Applied[x] {
+					unavailable = true
+				}
+			}
+			_, err, pan := r.Submit2(w.Info(bn).Index, []types.V2Transaction{txn}, []poolsim.Meta{m})
+			st[fmt.Sprintf("submit-at:-%d+%d", len(rv), len(ap))]++
+			what := fmt.Sprintf("AddV2PoolTransactions(fresh transaction, basis block %d, tip block %d: %d reverted + %d applied)", bn.Idx, tip.Idx, len(rv), len(ap))
+			switch {
+			case pan:
+				report("c13-panic", what+" panicked")
+			case err == nil && len(rv)+len(ap) > 144:
+				report("c13-rebase-missing-error", what+": the basis is more than 144 blocks away, yet the set was accepted")
+			case err != nil && len(rv)+len(ap) <= 144 && m.POK && !unavailable:
+				report("c13-rebase-unexpected-error", fmt.Sprintf("%s failed: %v", what, err))
+			}
 		case "txset":
 			// V2TransactionSet for a transaction with pooled ancestors
 			_, p2 := r.Pool()
@@ -679,6 +724,7 @@ func runCase(cs poolsim.Case, coqWanted bool) (coqOut string, failOut *failure, 
 			}
 			var txn types.V2Transaction
 			firstCall := false // the call is made before the pool is read again
+			pathTooLong, pathUnavailable := false, false
 			m := poolsim.Meta{SignedAt: tip.Height, POK: true}
 			basis := w.Info(tip).Index
 			one := types.Siacoins(1)
@@ -752,6 +798,70 @@ func runCase(cs poolsim.Case, coqWanted bool) (coqOut string, failOut *failure, 
 					ins[0], ins[1] = ins[1], ins[0]
 				}
 				txn = w.Env.V2SpendMulti(tip.FullState, ins, one)
+			case "basis-node":
+				// a fresh transaction built at another block (Op.Nodes[0]), with that block as basis
+				bn := nodeByIdx(stp.Op.Nodes[0])
+				if bn == nil || !r.Known[bn] || !bn.ChainValid() {
+					continue
+				}
+				used := map[types.SiacoinOutputID]bool{}
+				for _, x := range p2 {
+					for _, in := range x.SiacoinInputs {
+						used[in.Parent.ID] = true
+					}
+				}
+				tipL := w.Info(tip).L
+				var cand []types.SiacoinElement
+				for _, el := range w.Spendable(w.Info(bn), types.Siacoins(40)) {
+					if _, ok := tipL.SC[el.ID]; ok && !used[el.ID] {
+						cand = append(cand, el)
+					}
+				}
+				if len(cand) == 0 {
+					continue
+				}
+				txn = w.Env.V2Spend(bn.FullState, cand[g.Intn(len(cand))], one, one, w.Env.Payees[0], 0, 6)
+				basis = w.Info(bn).Index
+				m.SignedAt = bn.Height
+				m.POK = r.StoredElements(bn).FullState.Elements.ValidateTransactionElements(txn) == nil
+				rv, ap := poolsim.TreePath(bn, tip)
+				pathTooLong = len(rv)+len(ap) > 144
+				for _, x := range append(rv, ap...) {
+					if !r.Applied[x] {
+						pathUnavailable = true
+					}
+				}
+				st[fmt.Sprintf("txset-basis-node:-%d+%d", len(rv), len(ap))]++
+			case "corrupt-at-tip":
+				// a proof that does not verify (a flipped byte, or the proof of an older block) while the
+				// claimed basis is exactly the tip
+				free := w.Spendable(w.Info(tip), types.Siacoins(40))
+				if len(free) == 0 {
+					continue
+				}
+				el := free[g.Intn(len(free))]
+				if g.Bool() && tip.Parent != nil {
+					// the same element with its proof as of an ancestor
+					anc := tip.Parent
+					for k := g.Intn(3); k > 0 && anc.Parent != nil; k-- {
+						anc = anc.Parent
+					}
+					if old, ok := w.Info(anc).L.SC[el.ID]; ok {
+						el = old.Copy()
+					}
+				} else {
+					el = el.Copy()
+					if len(el.StateElement.MerkleProof) == 0 {
+						continue
+					}
+					el.StateElement.MerkleProof[g.Intn(len(el.StateElement.MerkleProof))][5] ^= 8
+				}
+				txn = w.Env.V2Spend(tip.FullState, el, one, one, w.Env.Payees[0], 0, 4)
+				m.POK = tip.FullState.Elements.ValidateTransactionElements(txn) == nil
+				if m.POK {
+					continue // the old proof still verifies: nothing to test
+				}
+				st["txset-corrupt-at-tip"]++
 			case "after-block":
 				// pool [parent, child]; a block confirms only the parent; V2TransactionSet(tip, child) is the
 				// very next call that touches the pool (no query in between)
@@ -925,9 +1035,17 @@ func runCase(cs poolsim.Case, coqWanted bool) (coqOut string, failOut *failure, 
 				continue
 			}
 			if err != nil {
-				if m.POK && stp.Flavor != "child-of-v1" {
+				if m.POK && stp.Flavor != "child-of-v1" && !pathTooLong && !pathUnavailable {
 					report("c13-set-unexpected-error", fmt.Sprintf("%s failed: %v", what, err))
 				}
+				continue
+			}
+			if !m.POK {
+				report("c13-set-missing-error", what+": a proof of the transaction does not verify against the claimed basis, yet the call succeeded")
+				continue
+			}
+			if pathTooLong {
+				report("c13-set-missing-error", what+": the basis is more than 144 blocks (reverted plus applied) away from the tip, yet the call succeeded")
 				continue
 			}
 			if idx != w.Info(tip).Index {
@@ -1215,12 +1333,12 @@ func genPlan(g *rng.R, t *chaingen.Tree, pairsBudget int) []poolsim.Step {
 		plan = append(plan, poolsim.Step{Kind: "submit", Flavor: subs[g.Intn(len(subs))], Seed: g.U64()})
 		switch g.Intn(3) {
 		case 0:
-			plan = append(plan, poolsim.Step{Kind: "txset", Flavor: []string{"pooled", "new-child", "child-of-v1", "stale-child", "diamond", "parent-mined", "after-block"}[g.Intn(7)], Seed: g.U64()})
+			plan = append(plan, poolsim.Step{Kind: "txset", Flavor: []string{"pooled", "new-child", "child-of-v1", "stale-child", "diamond", "parent-mined", "after-block", "corrupt-at-tip"}[g.Intn(8)], Seed: g.U64()})
 		case 1:
 			plan = append(plan, poolsim.Step{Kind: "parents", Flavor: []string{"pooled", "new-child", "child-of-v2", "diamond", "after-block"}[g.Intn(5)], Seed: g.U64()})
 		}
 	}
-	for _, f := range []string{"pooled", "new-child", "child-of-v1", "stale-child", "diamond", "parent-mined", "parent-mined", "after-block", "after-block"} {
+	for _, f := range []string{"pooled", "new-child", "child-of-v1", "stale-child", "diamond", "parent-mined", "parent-mined", "after-block", "after-block", "corrupt-at-tip", "corrupt-at-tip"} {
 		plan = append(plan, poolsim.Step{Kind: "txset", Flavor: f, Seed: g.U64()})
 	}
 	for _, f := range []string{"pooled", "new-child", "child-of-v2", "diamond", "after-block"} {
@@ -1241,6 +1359,54 @@ func longLine(seed uint64) poolsim.Case {
 		for _, k := range []string{"fresh", "eph-chain"} {
 			cs.Plan = append(cs.Plan, poolsim.Step{Kind: "update", Op: mgrsim.Op{Nodes: []int{2, 2 + d}}, Flavor: k, Seed: uint64(d)})
 			cs.Plan = append(cs.Plan, poolsim.Step{Kind: "update", Op: mgrsim.Op{Nodes: []int{2 + d, 2}}, Flavor: k, Seed: uint64(d)})
+		}
+	}
+	return cs
+}
+
+// the long fork: a trunk of 2 blocks, branch A of 145 and branch B of 146 empty blocks; rebases
+// between the branches with leg pairs on the boundary of the supported distance
+func longFork(seed uint64) poolsim.Case {
+	shape := []int{0, 1}
+	A := func(k int) int { return 2 + k }   // k = 1..145
+	B := func(j int) int { return 147 + j } // j = 1..146
+	for k := 1; k <= 145; k++ {
+		shape = append(shape, A(k)-1)
+	}
+	shape = append(shape, 2)
+	for j := 2; j <= 146; j++ {
+		shape = append(shape, B(j)-1)
+	}
+	cs := poolsim.Case{Seed: seed*151 + 11, Regime: 2, Opts: chaingen.GenOpts{Shape: shape, TxPerBlock: 0}}
+	seq := func(f func(int) int, a, b int) []int {
+		var ids []int
+		for i := a; i <= b; i++ {
+			ids = append(ids, f(i))
+		}
+		return ids
+	}
+	add := func(ids []int) poolsim.Step {
+		return poolsim.Step{Kind: "chain", Op: mgrsim.Op{Kind: "add", Nodes: ids}}
+	}
+	// tip A80, then B81: bases on A for the tip-based entry points
+	cs.Plan = []poolsim.Step{add(append([]int{1, 2}, seq(A, 1, 80)...)), add(seq(B, 1, 81))}
+	for _, k := range []int{70, 64, 63, 40} {
+		cs.Plan = append(cs.Plan, poolsim.Step{Kind: "txset", Flavor: "basis-node", Op: mgrsim.Op{Nodes: []int{A(k)}}, Seed: uint64(k)})
+		cs.Plan = append(cs.Plan, poolsim.Step{Kind: "submit-at", Op: mgrsim.Op{Nodes: []int{A(k)}}, Seed: uint64(k) + 1000})
+	}
+	cs.Plan = append(cs.Plan, add(seq(A, 81, 145)), add(seq(B, 82, 146)))
+	// UpdateV2TransactionSet: (reverted, applied) leg pairs
+	for _, p := range [][2]int{{144, 0}, {72, 72}, {72, 73}, {80, 70}, {144, 144}, {1, 144}, {145, 0}, {0, 144}, {0, 145}, {100, 45}, {144, 1}} {
+		from, to := 2, 2
+		if p[0] > 0 {
+			from = A(p[0])
+		}
+		if p[1] > 0 {
+			to = B(p[1])
+		}
+		for _, kind := range []string{"fresh", "eph-chain"} {
+			cs.Plan = append(cs.Plan, poolsim.Step{Kind: "update", Op: mgrsim.Op{Nodes: []int{from, to}}, Flavor: kind, Seed: uint64(p[0]*1000 + p[1])})
+			cs.Plan = append(cs.Plan, poolsim.Step{Kind: "update", Op: mgrsim.Op{Nodes: []int{to, from}}, Flavor: kind, Seed: uint64(p[0]*1000 + p[1] + 7)})
 		}
 	}
 	return cs
@@ -1309,6 +1475,7 @@ func run(c *hx.Ctx) {
 		doCase(cs)
 	}
 	doCase(longLine(c.Seed))
+	doCase(longFork(c.Seed))
 	n := c.Scale(90, 2000)
 	for i := 0; i < n; i++ {
 		g := c.R.Fork()
